@@ -8,5 +8,7 @@ From Chess3 Require Export Model.TimeCtl.
 From Chess3 Require Export Model.BoardDef.
 From Chess3 Require Export Model.BoardStreams.
 From Chess3 Require Export Spec.ChessJudge.
+From Chess3 Require Export Model.C05Streams.
+From Chess3 Require Export Spec.C05Judge.
 
 Extraction Language OCaml.
